@@ -297,11 +297,27 @@ func (i *Interpreter) Define(clauseText string) error {
 	if err != nil {
 		return fmt.Errorf("parsing failed: %v", err)
 	}
-	i.resetInteractiveDefs(buffer)
-	programInfo, err := analysis.AnalyzeOneUnit(unit, i.knownPredicates)
+	// Analyze against what is known without the current interactive definitions (the
+	// new buffer replaces them), and only touch the state once the new text is accepted.
+	known := i.knownPredicates
+	if i.hasInteractiveDefs() {
+		known = make(map[ast.PredicateSym]ast.Decl, len(i.knownPredicates))
+		for sym, decl := range i.knownPredicates {
+			known[sym] = decl
+		}
+		for sym, previous := range i.sourceFragments[interactivePath].previousDecls {
+			if previous == nil {
+				delete(known, sym)
+			} else {
+				known[sym] = *previous
+			}
+		}
+	}
+	programInfo, err := analysis.AnalyzeOneUnit(unit, known)
 	if err != nil {
 		return fmt.Errorf("analysis failed: %v", err)
 	}
+	i.resetInteractiveDefs(buffer)
 	i.pushSourceFragment(interactivePath, []parse.SourceUnit{unit}, programInfo)
 	// We run evaluation every time a line is added. Alternatively, we could
 	// let the user control when to evaluate rules.
